@@ -360,7 +360,11 @@ func (d *DBFT[H]) onPrepareRequest(msg ConsensusPayload[H]) {
 		return
 	}
 
-	d.sendPrepareResponse()
+	// Primary can get its own PrepareRequest back (from recovery message
+	// after restart), it's a preparation already, no response is needed.
+	if !d.IsPrimary() {
+		d.sendPrepareResponse()
+	}
 	d.checkPrepare()
 }
 
